@@ -51,7 +51,11 @@ pub fn by_id(id: &str) -> Option<Box<dyn Check>> {
     }
 }
 
-/// re-run a replay file without the explorer and print the observation log
+/// Re-execute a replay file without the explorer: the recorded work item is run with the search
+/// restricted to the recorded scenario and the one recorded schedule. Prints the decisions, the
+/// observation log and whether the violation shows again. Exit 1 = reproduced, 0 = not reproduced,
+/// 2 = the file cannot be re-executed (reference-state and differential checks store their own
+/// path: their files are printed as recorded).
 pub fn replay(path: &str) -> i32 {
     let text = match std::fs::read_to_string(path) {
         Ok(t) => t,
@@ -64,6 +68,45 @@ pub fn replay(path: &str) -> i32 {
     println!("property {} signature {}", v["property"], v["signature"]);
     println!("scenario {}", v["scenario"]);
     println!("what: {}", v["what"]);
+    let item = v.get("item").cloned().unwrap_or(serde_json::Value::Null);
+    let check = v["property"].as_str().and_then(by_id);
+    let schedule: Option<Vec<u32>> = v.get("schedule").and_then(|s| s.as_array()).map(|a| a.iter().map(|x| x.as_u64().unwrap_or(0) as u32).collect());
+    if let (Some(check), Some(schedule), true) = (check, schedule, item.is_object()) {
+        crate::world::install_panic_hook_quiet();
+        let tier = crate::report::Tier::parse(v["tier"].as_str().unwrap_or("quick"));
+        let scn = v["scenario"].as_str().unwrap_or("").to_string();
+        crate::report::REPLAY_FILTER.with(|f| *f.borrow_mut() = Some((scn, schedule)));
+        crate::report::CURRENT_ITEM.with(|c| *c.borrow_mut() = (tier.name().to_string(), item.clone()));
+        let mut out = crate::report::ItemOut::default();
+        check.run_item(tier, &item, &mut out);
+        println!("re-executed on the current tree: {} execution(s)", out.executions);
+        let want = v["signature"].as_str().unwrap_or("");
+        let mut hit = false;
+        for x in &out.violations {
+            println!("  shows: {} :: {}", x.sig, x.what);
+            if x.sig == want {
+                hit = true;
+                println!("decisions:");
+                for d in x.replay["decisions"].as_array().cloned().unwrap_or_default() {
+                    println!("  {}", d.as_str().unwrap_or(""));
+                }
+                println!("log:");
+                for d in x.replay["log"].as_array().cloned().unwrap_or_default() {
+                    println!("  {}", d.as_str().unwrap_or(""));
+                }
+            }
+        }
+        for m in &out.machinery {
+            println!("MACHINERY: {m}");
+        }
+        if hit {
+            println!("REPRODUCED: {want}");
+            return 1;
+        }
+        println!("NOT REPRODUCED: this schedule of this scenario no longer shows {want}");
+        return 0;
+    }
+    println!("(recorded observation; this kind of file carries its own operation path and is not re-executed)");
     println!("decisions:");
     for d in v["decisions"].as_array().cloned().unwrap_or_default() {
         println!("  {}", d.as_str().unwrap_or(""));
@@ -72,5 +115,5 @@ pub fn replay(path: &str) -> i32 {
     for d in v["log"].as_array().cloned().unwrap_or_default() {
         println!("  {}", d.as_str().unwrap_or(""));
     }
-    0
+    2
 }
